@@ -20,7 +20,11 @@ struct BarrierComp {
     }
     void final(std::vector<std::vector<long>>& out)
     {
+#ifndef VS_NO_PEEK
         out.push_back({(long)barrier.threshold_, (long)barrier.count_, (long)barrier.generation_});
+#else
+        (void)out;
+#endif
     }
 };
 int main(int argc, char** argv) { return vs::drive<BarrierComp>(argc, argv); }
